@@ -10,6 +10,7 @@ def run(tier, seed, limit=0):
     if limit:
         scs = scs[:limit]
     chk.run_scenarios(scs, "Trace_VscRand")
+    chk.run_mc("MC_VscRand", {"MaxLevel": 4 if tier == "quick" else 6}, workers=12, label="A-level API machine on world W-flags")
     return chk.finish(LEVEL, "populations of 1..3 instances of one class (created before and after the randomized one, distinguishable "
                       "non-random values) plus holders with nested / list-element instances; randomize_with over inline constraints and "
                       "Boolean terms of dynamic-constraint references; per call: the truth table of that call and afterwards the plain "
